@@ -76,6 +76,37 @@ func toBlock(x blkJ) bcl.Block {
 	return bcl.Block{Type: x.Type, Name: symName.Replace(x.Name), Fields: f}
 }
 
+// heldResults: results returned by earlier calls are kept (the slices themselves) together with how they looked when they were
+// returned; after every later call they must still look the same (a result belongs to its caller)
+type heldResult struct {
+	res  []bcl.Block
+	bind bcl.Binding
+	was  string
+	raw  []byte
+}
+
+var held []heldResult
+
+func holdResult(res []bcl.Block, bind bcl.Binding, raw []byte) {
+	if len(res) == 0 && bind == nil {
+		return
+	}
+	held = append(held, heldResult{res, bind, canonBlocks(res) + " / " + canonBinding(bind), append([]byte{}, raw...)})
+	if len(held) > 6 {
+		held = held[1:]
+	}
+}
+
+func heldChanged() (why string, raw []byte) {
+	for i, h := range held {
+		if now := canonBlocks(h.res) + " / " + canonBinding(h.bind); now != h.was {
+			held = append(held[:i], held[i+1:]...)
+			return "a result returned by an earlier call changed while later calls ran: was " + h.was + ", is " + now, h.raw
+		}
+	}
+	return "", nil
+}
+
 func toBlocks(xs []blkJ) []bcl.Block {
 	o := []bcl.Block{}
 	for _, x := range xs {
@@ -238,6 +269,10 @@ func replayProg(args []string) int {
 		}
 		s.Judged++
 		obs := interpretGuarded(src)
+		if hw, hraw := heldChanged(); hw != "" && s.ShapeCounts["earlier-result-changed"] < 3 {
+			s.bad(hw, "earlier-result-changed", hraw, map[string]string{"after_running": string(src)}, true)
+		}
+		holdResult(obs.res, obs.bind, raw)
 		why, shape, drift := judgeProg(&c, obs)
 		if drift != "" {
 			s.drift("error-text", drift)
